@@ -316,7 +316,6 @@ class Shard(ShardCMC):
 
                 minishard.offset = data_size
                 data_size += len(minishard.databytearray)
-                del minishard.databytearray
 
             # The shard index has one (start, end) entry per minishard
             # NUMBER: entry k must describe minishard k. Minishards that are
@@ -365,6 +364,11 @@ class Shard(ShardCMC):
             fp.seek(0)
             fp.write(bytes(sh_idx_buf))
         self.dirty = False
+        # The write buffers are released only once the shard file is complete,
+        # so that a close() that failed (e.g. disk full) can be retried; the
+        # accessor calls close() again at interpreter exit.
+        for minishard in sorted_mini_dict:
+            del minishard.databytearray
 
 
 class ShardedScale(ShardedScaleBase):
